@@ -76,6 +76,7 @@ def exhaustive(names: Sequence[str], sizes: Sequence[int], outs: Dict[str, int])
                 t[nm] = rng.randrange(s)
         return ts
 
+    dom.all_tuples = True  # type: ignore[attr-defined]
     return dom
 
 
@@ -245,6 +246,7 @@ def exact_division_domain(n: int, nb: int, count: int) -> Callable[[random.Rando
         ps = ps[:max(count, 0)] if len(ps) > count else ps
         return [{'z': a % M(n), 'u': (b % M(nb)) | (rng.randrange(M(n - nb)) << (4 * nb)), 'x': rng.randrange(M(n)), 'y': rng.randrange(M(n))} for a, b in ps]
 
+    dom.all_tuples = M(n) * M(nb) <= 256  # type: ignore[attr-defined]
     return dom
 
 
@@ -821,6 +823,7 @@ def mul_table_domain(zs: Sequence[int]) -> Callable[[random.Random], List[Vals]]
         rng.shuffle(ts)
         return ts
 
+    dom.all_tuples = True  # type: ignore[attr-defined]  # all REACHABLE table states (see the docstring)
     return dom
 
 
